@@ -962,7 +962,8 @@ impl DesignRoot {
             }
         }
 
-        self.reset_affected(get_all_affected(&users_of, affected));
+        let all_affected = get_all_affected(&users_of, affected);
+        self.reset_affected(all_affected.clone());
         drop(users_of);
         drop(users_of_library_all);
         drop(missing_unit);
@@ -985,6 +986,22 @@ impl DesignRoot {
                 !unit_ids.is_empty()
             });
         }
+
+        // The units which will be re-analyzed register what they make use of anew.
+        // Dependencies which only the previous version of a unit had must be forgotten,
+        // otherwise they could form spurious circular dependencies.
+        users_of.retain(|_, users| {
+            users.retain(|user| !all_affected.contains(user));
+            !users.is_empty()
+        });
+        users_of_library_all.retain(|_, users| {
+            users.retain(|user| !all_affected.contains(user));
+            !users.is_empty()
+        });
+        missing_unit.retain(|_, users| {
+            users.retain(|user| !all_affected.contains(user));
+            !users.is_empty()
+        });
     }
 
     fn analyze_standard_package(&mut self) {
